@@ -64,11 +64,74 @@ def make_f(spec):
         f.mp = None
     else:
         raise ValueError(kind)
+    ret = spec.get("ret")
+    if ret is not None:
+        if ret in RET_ALIAS:
+            if f.poly != [Fr(0), Fr(1)]:
+                raise ValueError("only f(x) = x can hand its argument back")
+            f.np = RET_ALIAS[ret][1]
+        elif ret in RET_FRESH:
+            f.np = (lambda x, base=f.np, wrap=RET_FRESH[ret][1]: wrap(base(x)))
+        else:
+            raise ValueError(ret)
     return f
 
 
-def spec(kind, *par):
-    return dict(kind=kind, par=[C.fhex(p) for p in par])
+# ---------------------------------------------------------------- what kind of object f hands back
+#
+# "f maps floats to floats": nothing says that the value is a freshly allocated, writeable, contiguous float64 array.  The
+# identity - the simplest polynomial - is naturally written so that it returns its argument (or a view of it); a function may
+# return a read-only array (np.broadcast_to, a cached table, a memory map) or a strided view of something larger.  The
+# mathematical function is the same, so the exact oracles (f.poly, f.mp) are untouched; only f.np changes.
+
+def _readonly(r):
+    r = np.array(r, dtype=float)            # fresh copy
+    r.setflags(write=False)
+    return r
+
+
+def _strided(r):
+    r = np.asarray(r, dtype=float)
+    return np.repeat(r[..., None], 2, axis=-1)[..., 0]      # every other element of a fresh buffer: same values, not contiguous
+
+
+RET_ALIAS = {       # spellings of f(x) = x whose return value IS the argument or shares its memory
+    "same_object": ("lambda x: x", lambda x: x),
+    "view": ("lambda x: x[...]", lambda x: x[...]),
+    "asarray": ("np.asarray", np.asarray),
+    "reshape": ("lambda x: x.reshape(x.shape)", lambda x: x.reshape(x.shape)),
+    "real": ("np.real", np.real),
+    "astype_nocopy": ("lambda x: x.astype(float, copy=False)", lambda x: x.astype(float, copy=False)),
+    "readonly_view": ("lambda x: np.broadcast_to(x, np.shape(x))", lambda x: np.broadcast_to(x, np.shape(x))),
+}
+RET_FRESH = {       # any f: a new array each time, but read-only and / or not contiguous
+    "readonly": ("g(x) with .setflags(write=False)", _readonly),
+    "noncontiguous": ("np.repeat(g(x)[..., None], 2, axis=-1)[..., 0]", _strided),
+    "readonly_noncontiguous": ("np.repeat(g(x)[..., None], 2, axis=-1)[..., 0] with .setflags(write=False)",
+                               lambda r: _readonly_flag(_strided(r))),
+}
+
+
+def _readonly_flag(r):
+    r.setflags(write=False)
+    return r
+
+
+def source_of(spec):
+    """Python text of the callable handed to the library when it is not the plain float formula (for the replay line)"""
+    ret = spec.get("ret")
+    if ret in RET_ALIAS:
+        return "f = " + RET_ALIAS[ret][0]
+    if ret in RET_FRESH:
+        return "f = " + RET_FRESH[ret][0] + ", g the float64 formula of the spec"
+    return None
+
+
+def spec(kind, *par, ret=None):
+    d = dict(kind=kind, par=[C.fhex(p) for p in par])
+    if ret is not None:
+        d["ret"] = ret
+    return d
 
 
 def mpf_to_fr(v):
